@@ -380,4 +380,49 @@ theorem ret_interpolate_points_M4 (bu : Backup) (xPrev xNow : ℚ) (wp wn : ℤ)
     fun q hq => hC q (hsub.subset hq)⟩
   simp [retInterpolateWrapPoints, h0, hc, bind, Except.bind, pure, Except.pure]
 
+/-! ## Which films are plotted -/
+
+/-- the loop is a filter: nothing that happens for one film influences another -/
+theorem plotLoop_eq_filter {α} (has : α → Bool) (films : List α) : plotLoop has films = films.filter has := by
+  induction films with
+  | nil => rfl
+  | cons f fs ih => simp only [plotLoop, List.filter_cons, ih]
+
+/-- **Exactly the films that have data are plotted**, whatever else is in the FILM table. -/
+theorem plots_mem_iff {α} (has : α → Bool) (films : List α) (f : α) :
+    f ∈ plotLoop has films ↔ f ∈ films ∧ has f = true := by
+  rw [plotLoop_eq_filter, List.mem_filter]
+
+/-- **Order independence**: permuting the FILM table permutes the plots; in particular a film without data in any
+position (first, middle, last) never hides a later film. -/
+theorem plots_order_independent {α} (has : α → Bool) {films₁ films₂ : List α} (h : films₁.Perm films₂) :
+    (plotLoop has films₁).Perm (plotLoop has films₂) := by
+  rw [plotLoop_eq_filter, plotLoop_eq_filter]; exact h.filter has
+
+/-- the number of plots is the number of films with data -/
+theorem plots_count {α} (has : α → Bool) (films : List α) :
+    (plotLoop has films).length = films.countP has := by
+  rw [plotLoop_eq_filter, List.countP_eq_length_filter]
+
+/-- `hasDataToPlotLIS` says: the pass has frames and some PRES row sends a channel of the pass to this film. -/
+theorem hasDataToPlot_iff (n : ℕ) (pres : List PresRow) (chans : List ℕ) (film : ℕ) :
+    hasDataToPlot n pres chans film = true ↔ n ≠ 0 ∧ ∃ r ∈ pres, r.dest = film ∧ r.outp ∈ chans := by
+  unfold hasDataToPlot outpChIDs
+  by_cases hn : n = 0
+  · simp [hn]
+  · simp only [hn, if_false, ne_eq, not_false_eq_true, true_and]
+    by_cases hany : pres.any (fun r => r.dest == film) = true
+    · simp only [hany, Bool.not_true, Bool.false_eq_true, if_false, List.any_eq_true, List.mem_map, List.mem_filter,
+        beq_iff_eq, List.contains_iff_mem]
+      constructor
+      · rintro ⟨o, ⟨r, ⟨hr, hd⟩, rfl⟩, ho⟩; exact ⟨r, hr, hd, ho⟩
+      · rintro ⟨r, hr, hd, ho⟩; exact ⟨r.outp, ⟨r, ⟨hr, hd⟩, rfl⟩, ho⟩
+    · simp only [hany, Bool.not_false, if_true, Bool.false_eq_true, false_iff]
+      rintro ⟨r, hr, hd, _⟩
+      apply hany
+      simp only [List.any_eq_true, beq_iff_eq]
+      exact ⟨r, hr, hd⟩
+
+example : plotLoop (hasDataToPlot 81 [⟨1, 10⟩, ⟨2, 20⟩, ⟨2, 20⟩] [20]) [1, 2] = [2] := by decide
+
 end TD.C19
